@@ -194,6 +194,15 @@ class SubstModel:
             self.probes['symbol_inside_quoted_string'] = self.probes.get('symbol_inside_quoted_string', 0) + 1
             self.shape.append(('quoted', len(vals), directive))
             return 'keep', [line]
+        if k == 'use_raw':
+            # an identifier that contains the symbol's name next to a byte that is no UTF-8 (file saved in a legacy code
+            # page): it can name nothing, so a run that accepts the line has dropped the byte and substituted the rest
+            name = op['name']
+            if name not in self.symbols:
+                return None
+            raw = chr(0xDC00 + op['byte'])
+            ident = {'before': raw + name, 'after': name + raw, 'inside': name[:1] + raw + name[1:]}[op['where']]
+            return 'probe', [f'  .byte {ident}']
         if k == 'use_stmt':
             # a symbol standing for a whole statement, alone on its line (its name may look like a mnemonic in other case)
             name = op['name']
@@ -297,7 +306,8 @@ def world_for(case, lines):
             env_syms = {'BESPOKEASM_COMPILE_MACRO_SYMBOL': ' '.join(vals)}
             argv = [a for i, a in enumerate(argv) if not (a == '-D' or (i > 0 and argv[i - 1] == '-D'))]
     return {'files': {f'{PDIR}/isa.yaml': gen.isa_text(isa_for(case['pre_symbols']), 'yaml'),
-                      f'{PDIR}/main.asm': text.encode('utf-8').decode('latin-1')},      # stored as UTF-8 bytes
+                      # stored as UTF-8 bytes; a lone surrogate stands for one raw byte
+                      f'{PDIR}/main.asm': text.encode('utf-8', 'surrogateescape').decode('latin-1')},
             'argv': argv, 'cwd': PDIR, 'step_budget': 3_000_000, 'set_seed': case.get('set_seed'),
             # environment variables named like hex numbers / compilers: `$FC` in a value is a hex literal, not a variable
             'env': dict({'HOME': '/sim/home', 'FC': '10', 'F77': 'gfortran', 'CC': 'cc', 'AB': '77', 'BA': '5'},
@@ -331,7 +341,7 @@ def run_history(case, stats=None):
         ok = r['kind'] == 'exit' and r['exit'] == 0
         if mode == 'probe':
             if ok:
-                viol.append('SUB-accepted-redefinition' if op['op'] == 'define' else 'SUB-accepted-cyclic-symbol')
+                viol.append({'define': 'SUB-accepted-redefinition', 'use_raw': 'SUB-identifier-with-undecodable-byte-substituted'}.get(op['op'], 'SUB-accepted-cyclic-symbol'))
                 obs['steps'].append({'i': i, 'op': op, 'lines': new})
             continue
         lines = lines + new
@@ -489,7 +499,7 @@ def make_machine(stats, box):
             ok = r['kind'] == 'exit' and r['exit'] == 0
             if mode == 'probe':
                 if ok:
-                    cls = 'SUB-accepted-redefinition' if op['op'] == 'define' else 'SUB-accepted-cyclic-symbol'
+                    cls = {'define': 'SUB-accepted-redefinition', 'use_raw': 'SUB-identifier-with-undecodable-byte-substituted'}.get(op['op'], 'SUB-accepted-cyclic-symbol')
                     raise Violation([cls], copy.deepcopy(self.case), {'probe': new})
                 return
             self.lines = self.lines + new
@@ -582,6 +592,10 @@ def make_machine(stats, box):
             self.do({'op': 'use_label', 'name': n}, check=False)
             if len(self.case['ops']) > before:
                 self.do({'op': 'use', 'text': f'lbl{k}', 'directive': '.2byte'})
+
+        @rule(n=name, byte=st.sampled_from([0xB5, 0xE9, 0xD6, 0xFF]), where=st.sampled_from(['before', 'after', 'inside']))
+        def legacy_code_page_identifier(self, n, byte, where):
+            self.do({'op': 'use_raw', 'name': n, 'byte': byte, 'where': where})
 
         @rule()
         def mute(self):
